@@ -40,4 +40,34 @@ def stochasticPost (full : Nat → Sess → Bool) (t : Nat) (s : Net) : Net × O
 def net0 (cfg : Cfg) (early : Bool) : Net :=
   Net.init cfg.stations early (fun id => (findSession cfg id).map (·.station))
 
+/-! ### `fully_charged` computed inside the run (energy ledger) instead of supplied
+
+  `Simulator.run` charges the plugged-in EVs (`update_pilots` → `EVSE.set_pilot` → `EV.charge`,
+  simulator.py:136-138) immediately before `post_charging_update`, and nothing in between touches
+  the network; so the charging stage of period `t` is modelled inside the `post` hook, on a ledger
+  state `L` carried next to the network state.  `charge` may be ANY function of the period, the
+  network state (who is plugged where) and the ledger — any scheduler, pilot matrix and battery
+  law; `full` reads `EV.fully_charged` off the ledger. -/
+
+structure Ledger (L : Type) where
+  charge : Nat → Net → L → L
+  full : L → Sess → Bool
+
+def stochasticNetL {L : Type} (cs : Nat → Nat) : NetOps (Net × L) where
+  plugin := fun s x => ((((stochasticNet cs).plugin s.1 x).1, s.2), ((stochasticNet cs).plugin s.1 x).2)
+  unplug := fun s x => ((((stochasticNet cs).unplug s.1 x).1, s.2), ((stochasticNet cs).unplug s.1 x).2)
+
+def stochasticPostL {L : Type} (led : Ledger L) (t : Nat) (s : Net × L) : (Net × L) × Option EventCore.Err :=
+  let l' := led.charge t s.1 s.2
+  (((liftOp s.1 (s.1.post (led.full l'))).1, l'), (liftOp s.1 (s.1.post (led.full l'))).2)
+
+/-- the ledger of `EV` (ev.py:100-112): energy delivered so far per session; an EV that sits on a
+    station receives `rate t net x` in period `t` (whatever the scheduler and the battery make of
+    it), and is fully charged when `requested - delivered ≤ eps` (`not (remaining_demand > 1e-3)`) -/
+def energyLedger {K : Type} [Add K] [Sub K] [LT K] [DecidableLT K] (requested : Sess → K)
+    (rate : Nat → Net → Sess → K) (eps : K) : Ledger (Sess → K) where
+  charge := fun t s d x =>
+    if s.stations.any (fun st => s.occ st == some x) then d x + rate t s x else d x
+  full := fun d x => !decide (eps < requested x - d x)
+
 end Acn.Stoch
